@@ -1,6 +1,6 @@
 ------------------------------- MODULE Labels -------------------------------
 (* Series identity (C04, first half): a fingerprint is a function of the sanitised label SET -- not of the order  *)
-(* of the pairs, the ingest protocol or the request -- different sets get different fingerprints, and the stored  *)
+(* of the pairs, the ingest protocol or the request (its size, the position of the series in it) -- different sets get different fingerprints, and the stored  *)
 (* label document decodes to the set.  The hash itself is not modelled: the module is the trace specification      *)
 (* for events recorded from the real parsers (one event per (label set, permutation, protocol)); the state keeps   *)
 (* the fingerprint seen for every set and the set seen for every fingerprint.                                      *)
@@ -16,14 +16,21 @@ FpsSeen == { TraceLog[i].fp : i \in 1..Len(TraceLog) }
 
 Init == l = 1 /\ fpOf = [s \in Sets |-> ""] /\ setOf = [f \in FpsSeen |-> ""] /\ bad = "none"
 
+\* Two kinds of events.  "Push": a series row (fingerprint + label document) emitted for the set.  "Sample": the fingerprint
+\* a sample row of the series was stored under.  Both carry the shape of the request around the series (e.shape: the series
+\* alone in its body, a series larger than one chunk of the decoder, a series behind / between many others): the
+\* fingerprint must not depend on it, and every sample row must be stored under a fingerprint that has a series row.
 Push ==
     /\ l <= Len(TraceLog)
-    /\ LET e == TraceLog[l] IN
-         /\ fpOf' = [fpOf EXCEPT ![e.set] = e.fp]
-         /\ setOf' = [setOf EXCEPT ![e.fp] = e.set]
+    /\ LET e == TraceLog[l]
+           row == e.ev = "Push" IN
+         /\ fpOf' = IF row THEN [fpOf EXCEPT ![e.set] = e.fp] ELSE fpOf
+         /\ setOf' = IF row THEN [setOf EXCEPT ![e.fp] = e.set] ELSE setOf
          /\ bad' = IF fpOf[e.set] # "" /\ fpOf[e.set] # e.fp THEN "not-a-function-of-the-set"
                    ELSE IF setOf[e.fp] # "" /\ setOf[e.fp] # e.set THEN "collision"
-                   ELSE IF ~e.docok THEN "document" ELSE bad
+                   ELSE IF row /\ ~e.docok THEN "document"
+                   ELSE IF ~row /\ setOf[e.fp] = "" THEN "sample-without-series-row"
+                   ELSE bad
     /\ l' = l + 1
 
 Spec == Init /\ [][Push]_vars
@@ -34,6 +41,8 @@ FingerprintIsFunctionOfSet == bad # "not-a-function-of-the-set"
 NoCollision == bad # "collision"
 \* every stored label document decodes to exactly the sanitised label set
 DocumentFaithful == bad # "document"
+\* every sample row is stored under a fingerprint for which a series row (label document) was emitted
+SampleIndexed == bad # "sample-without-series-row"
 
 Accept == (l = Len(TraceLog) + 1) => (PrintT("TRACE-ACCEPTED") /\ TLCSet("exit", TRUE))
 HW == TLCGetOrDefault(1, 0)
